@@ -60,6 +60,9 @@ def worlds(tier):
 
 
 INT_INNER = [(), (0,), (0, 1), (2, 2), (1, 0), 0, 2, 1]      # plain values as elements, falsy ones and scalars included
+# a STRING is a single element (a non-iterable value counts as one element, and so does text): scalars "ab" / "" / "x" and a
+# collection of strings
+STR_INNER = ["ab", "", ("ab", "c"), (), "x", ("",)]
 IKINDS = {
     "ivalue": None,
     "ivalue_setof": None,          # the concatenated value selected through set_of([...]) instead of entity(...)
@@ -83,6 +86,12 @@ def cases(tier, inst):
                 continue
             for k in IKINDS:
                 yield (("int",) + combo, k, True)
+    for n in (1, 2, 3):
+        for combo in itertools.product(STR_INNER, repeat=n):
+            if n == 3 and (tier == "quick" and hash(combo) % 4):
+                continue
+            for k in ("ivalue", "iin", "inot_in", "ivalue_setof"):
+                yield (("str",) + combo, k, True)
     # the concatenated expression sits on a CONSTRAINED parent (a predicate-form term with a field constraint, a
     # sub-query with a condition): only the parents that satisfy the constraint contribute
     for pk in PARENT_KINDS:
@@ -127,6 +136,9 @@ def wspec_of(combo):
         inn = combo[1:]
         rows = tuple((("p", i + 1), ("items", inner), ("t", inn[(i + 1) % len(inn)])) for i, inner in enumerate(inn))
         return (("E", "Item", tuple((("p", i),) for i in range(4))), ("P", "Item", rows))
+    if combo and combo[0] == "str":
+        rows = tuple((("p", i + 1), ("items", inner)) for i, inner in enumerate(combo[1:]))
+        return (("E", "Item", tuple((("p", v),) for v in ("ab", "a", "", "c"))), ("P", "Item", rows))
     if combo and combo[0] == "intc":
         # the first parent fails the constraint (q == 2), the others alternate
         rows = tuple((("p", i + 1), ("q", 2 if i % 2 == 0 else 1), ("items", inner)) for i, inner in enumerate(combo[2:]))
